@@ -251,14 +251,16 @@ def run(R):
         ags = [x for x in mirlib.aggregates(fs, 'status::Status') if x[3].get('kind') == 'adt']
         ctor = [(bb, t) for bb, t in fs.calls(pat='status::Status::') if t.get('name') in ('new', 'with_metadata', 'with_details', 'with_details_and_metadata')]
         nfa = 0
+        # the downcast to Status itself (other downcasts in the chain walk — TimeoutExpired, h2/hyper errors — build their own statuses)
+        is_dc = lambda x: is_call(x, name='downcast_ref') and any(re.search(r'(^|::)Status$', g_) for g_ in (x[4].get('ga') or []))
         for ag in ags:
-            if term_contains(fs.origin(ag[4][ag[3]['fields'].index('code')]), lambda x: is_call(x, name='downcast_ref')):
+            if term_contains(fs.origin(ag[4][ag[3]['fields'].index('code')]), is_dc):
                 for fname in ('code', 'message', 'details', 'metadata'):
                     v = fs.origin(ag[4][ag[3]['fields'].index(fname)])
                     nfa += 1
                     R.check(fname in [x[2] for x in find_terms(v, lambda x: x and x[0] == 'field')], 'C20.R6', 'recovered:%s' % fname, site(fs, ag[0], ag[1]), 'field %s of the recovered status comes from the found status: %s' % (fname, show(v)[:80]))
         for bb, t in ctor:
-            if not any(term_contains(fs.origin(a_), lambda x: is_call(x, name='downcast_ref')) for a_ in t['args']):
+            if not any(term_contains(fs.origin(a_), is_dc) for a_ in t['args']):
                 continue
             got = set()
             for a_ in t['args']:
